@@ -34,7 +34,7 @@ txt = {
  "V_pai1": "\"Cullen\" <sip:fluffy@c.example>", "V_pai2": "<sip:a@b>, <tel:+14085264000>", "V_pai3": "<sip:a@b>, <sip:c@d>, <sip:e@f>",
  "V_x1": "bar", "V_x2": "a b\tc", "V_x3": "folded\r\n value", "V_x4": "lf\n\tfold", "V_x5": "cr\r fold", "V_empty": "",
  "V_subj": "I know you're there, pick up the phone: and talk!",
- "V_big1": "16777217", "V_big2": "4294967296", "V_big3": "0000000568", "V_big4": "99999999999", "V_big5": "4000000000",
+ "V_big1": "16777217", "V_big2": "4294967296", "V_big3": "0000000568", "V_big4": "99999999999", "V_big5": "4000000000", "V_big6": "4294967295",
  "VC_e10": "<sip:a@b>;expires=10", "VC_e60_5": "<sip:c@d>;expires=60, \"x\" <sip:e@f>;expires=5;q=0.1", "VC_e7200": "sip:g@h;expires=7200",
  "VC_e3": "<sip:i@j>;EXPIRES=3 ;foo", "VC_e3600z": "<sip:k@l>;expires=000000000000000000003600", "V_expires3": "100",
  # first lines
